@@ -556,19 +556,19 @@ Local Open Scope Z_scope.
    specification allows. *)
 Theorem C19_buf_bytes : forall junk ops,
   (forall i, 0 <= junk i < 256) -> Forall buf_op_ok ops ->
-  exists tr, buf_run_checked junk buf_empty ops = Ok tr /\ spec_accepts [spec_create] ops tr = true.
+  exists tr, buf_run_checked junk buf_empty ops = Ok tr /\ bufs_accepts [bufs_create] ops tr = true.
 Proof. exact buf_run_refines. Qed.
 Print Assumptions C19_buf_bytes.
 
 (* one step: invariant preserved, never UB, result among the alternatives of the specification *)
 Theorem C19_buf_step_refines : forall junk b op, (forall i, 0 <= junk i < 256) ->
-  buf_inv b -> buf_bytes_ok (b_mem b) -> buf_op_ok op -> spec_contract (buf_abs b) op = true ->
-  exists o b', buf_step junk b op = Ok (o, b') /\ buf_inv b' /\ buf_bytes_ok (b_mem b') /\
-               In (o, buf_abs b') (spec_alts (buf_abs b) op).
+  buf_inv b -> buf_bytes_ok (cb_mem b) -> buf_op_ok op -> bufs_contract (buf_abs b) op = true ->
+  exists o b', buf_step junk b op = Ok (o, b') /\ buf_inv b' /\ buf_bytes_ok (cb_mem b') /\
+               In (o, buf_abs b') (bufs_alts (buf_abs b) op).
 Proof. exact buf_step_refines. Qed.
 Print Assumptions C19_buf_step_refines.
 
-Theorem C19_buf_observe_refines : forall b, buf_inv b -> buf_observe b = Ok (spec_view (buf_abs b)).
+Theorem C19_buf_observe_refines : forall b, buf_inv b -> buf_observe b = Ok (bufs_view (buf_abs b)).
 Proof. exact buf_observe_refines. Qed.
 Print Assumptions C19_buf_observe_refines.
 
@@ -577,14 +577,14 @@ Print Assumptions C19_buf_observe_refines.
 Theorem C19_buf_append_refines : forall junk ok b bytes,
   buf_inv b -> buf_zlen bytes < BUF_ALLOC_LIMIT ->
   exists st b', buf_append junk ok b bytes = Ok (st, b') /\ buf_inv b' /\
-    In (st, buf_abs b') (spec_append_alts (buf_abs b) bytes) /\
-    ((forall i, 0 <= junk i < 256) -> buf_bytes_ok (b_mem b) -> buf_bytes_ok bytes -> buf_bytes_ok (b_mem b')) /\
-    (st = ARES_ENOMEM -> ok = false \/ BUF_ALLOC_LIMIT <= 2 * (b_dlen b + buf_zlen bytes + 1)).
+    In (st, buf_abs b') (bufs_append_alts (buf_abs b) bytes) /\
+    ((forall i, 0 <= junk i < 256) -> buf_bytes_ok (cb_mem b) -> buf_bytes_ok bytes -> buf_bytes_ok (cb_mem b')) /\
+    (st = ARES_ENOMEM -> ok = false \/ BUF_ALLOC_LIMIT <= 2 * (cb_dlen b + buf_zlen bytes + 1)).
 Proof. exact buf_append_refines. Qed.
 Print Assumptions C19_buf_append_refines.
 
 Theorem C19_buf_append_total : forall junk b bytes,
-  buf_inv b -> buf_not_const b -> b_dlen b + buf_zlen bytes + 1 < 2 ^ 60 ->
+  buf_inv b -> buf_not_const b -> cb_dlen b + buf_zlen bytes + 1 < 2 ^ 60 ->
   exists b', buf_append junk true b bytes = Ok (ARES_SUCCESS, b') /\
              buf_remaining b' = buf_remaining b ++ bytes.
 Proof. exact buf_append_total. Qed.
@@ -594,20 +594,20 @@ Print Assumptions C19_buf_append_total.
 Theorem C19_buf_append_alloc_fail_atomic : forall junk ok b bytes st b',
   buf_inv b -> buf_zlen bytes < BUF_ALLOC_LIMIT ->
   buf_append junk ok b bytes = Ok (st, b') -> st = ARES_ENOMEM ->
-  buf_inv b' /\ buf_remaining b' = buf_remaining b /\ spec_tagged (buf_abs b') = spec_tagged (buf_abs b).
+  buf_inv b' /\ buf_remaining b' = buf_remaining b /\ bufs_tagged (buf_abs b') = bufs_tagged (buf_abs b).
 Proof. exact buf_append_alloc_fail_atomic. Qed.
 Print Assumptions C19_buf_append_alloc_fail_atomic.
 
 Theorem C19_buf_ensure_space_alloc_fail_atomic : forall junk ok b n st b',
   buf_inv b -> 0 <= n < BUF_ALLOC_LIMIT ->
   buf_ensure_space junk ok b n = Ok (st, b') -> st = ARES_ENOMEM ->
-  buf_inv b' /\ buf_remaining b' = buf_remaining b /\ spec_tagged (buf_abs b') = spec_tagged (buf_abs b).
+  buf_inv b' /\ buf_remaining b' = buf_remaining b /\ bufs_tagged (buf_abs b') = bufs_tagged (buf_abs b).
 Proof. exact buf_ensure_space_alloc_fail_atomic. Qed.
 Print Assumptions C19_buf_ensure_space_alloc_fail_atomic.
 
 Theorem C19_buf_append_be16_alloc_fail_atomic : forall junk ok b v st b',
   buf_inv b -> buf_append_be16 junk ok b v = Ok (st, b') -> st = ARES_ENOMEM ->
-  buf_inv b' /\ buf_remaining b' = buf_remaining b /\ spec_tagged (buf_abs b') = spec_tagged (buf_abs b).
+  buf_inv b' /\ buf_remaining b' = buf_remaining b /\ bufs_tagged (buf_abs b') = bufs_tagged (buf_abs b).
 Proof. exact buf_append_be16_alloc_fail_atomic. Qed.
 Print Assumptions C19_buf_append_be16_alloc_fail_atomic.
 
@@ -622,107 +622,107 @@ Print Assumptions C19_buf_append_be16_unfixed_refuted.
 (* fetches *)
 Theorem C19_buf_fetch_bytes_refines : forall b n, buf_inv b -> 0 <= n ->
   exists st b' out, buf_fetch_bytes b n = Ok (st, b', out) /\ buf_inv b' /\
-                    (st, buf_abs b', out) = spec_fetch_bytes (buf_abs b) n.
+                    (st, buf_abs b', out) = bufs_fetch_bytes (buf_abs b) n.
 Proof. exact buf_fetch_bytes_refines. Qed.
 Print Assumptions C19_buf_fetch_bytes_refines.
 
 Theorem C19_buf_fetch_be16_refines : forall b, buf_inv b -> buf_bytes_ok (buf_remaining b) ->
   exists st b' v, buf_fetch_be16 b = Ok (st, b', v) /\ buf_inv b' /\
-                  (st, buf_abs b', v) = spec_fetch_be 2 (buf_abs b).
+                  (st, buf_abs b', v) = bufs_fetch_be 2 (buf_abs b).
 Proof. exact buf_fetch_be16_refines. Qed.
 Print Assumptions C19_buf_fetch_be16_refines.
 
 Theorem C19_buf_fetch_be32_refines : forall b, buf_inv b -> buf_bytes_ok (buf_remaining b) ->
   exists st b' v, buf_fetch_be32 b = Ok (st, b', v) /\ buf_inv b' /\
-                  (st, buf_abs b', v) = spec_fetch_be 4 (buf_abs b).
+                  (st, buf_abs b', v) = bufs_fetch_be 4 (buf_abs b).
 Proof. exact buf_fetch_be32_refines. Qed.
 Print Assumptions C19_buf_fetch_be32_refines.
 
 Theorem C19_buf_be_roundtrip : forall k v, 0 <= v ->
-  spec_be_value 0 (spec_be_bytes k v) = v mod 256 ^ Z.of_nat k.
-Proof. exact spec_be_roundtrip. Qed.
+  bufs_be_value 0 (bufs_be_bytes k v) = v mod 256 ^ Z.of_nat k.
+Proof. exact bufs_be_roundtrip. Qed.
 Print Assumptions C19_buf_be_roundtrip.
 
-Theorem C19_buf_fetch_bytes_boundary : forall s, 0 < spec_len s ->
-  spec_fetch_bytes s (spec_len s) = (ARES_SUCCESS, mkSpec (s_pre s ++ s_post s) [] (s_tag s) (s_const s), s_post s) /\
-  spec_fetch_bytes s (spec_len s + 1) = (ARES_EBADRESP, s, []).
-Proof. exact spec_fetch_bytes_boundary. Qed.
+Theorem C19_buf_fetch_bytes_boundary : forall s, 0 < bufs_len s ->
+  bufs_fetch_bytes s (bufs_len s) = (ARES_SUCCESS, mkBufSpec (bs_pre s ++ bs_post s) [] (bs_tag s) (bs_const s), bs_post s) /\
+  bufs_fetch_bytes s (bufs_len s + 1) = (ARES_EBADRESP, s, []).
+Proof. exact bufs_fetch_bytes_boundary. Qed.
 Print Assumptions C19_buf_fetch_bytes_boundary.
 
 Theorem C19_buf_consume_refines : forall b n, buf_inv b -> 0 <= n ->
   exists st b', buf_consume b n = Ok (st, b') /\ buf_inv b' /\
-                (st, buf_abs b') = spec_consume (buf_abs b) n.
+                (st, buf_abs b') = bufs_consume (buf_abs b) n.
 Proof. exact buf_consume_refines. Qed.
 Print Assumptions C19_buf_consume_refines.
 
 (* tag / rollback / reclaim *)
 Theorem C19_buf_tag_rollback_refines : forall b, buf_inv b ->
   exists st b', buf_tag_rollback b = Ok (st, b') /\ buf_inv b' /\
-                (st, buf_abs b') = spec_tag_rollback (buf_abs b).
+                (st, buf_abs b') = bufs_tag_rollback (buf_abs b).
 Proof. exact buf_tag_rollback_refines. Qed.
 Print Assumptions C19_buf_tag_rollback_refines.
 
 Theorem C19_buf_tag_advance_rollback : forall s n1 n2,
-  0 <= n1 -> 0 <= n2 -> n1 + n2 <= spec_len s ->
-  snd (spec_tag_rollback (spec_advance (spec_advance (spec_tag s) n1) n2)) =
-  mkSpec (s_pre s) (s_post s) None (s_const s).
-Proof. exact spec_tag_advance_rollback. Qed.
+  0 <= n1 -> 0 <= n2 -> n1 + n2 <= bufs_len s ->
+  snd (bufs_tag_rollback (bufs_advance (bufs_advance (bufs_tag s) n1) n2)) =
+  mkBufSpec (bs_pre s) (bs_post s) None (bs_const s).
+Proof. exact bufs_tag_advance_rollback. Qed.
 Print Assumptions C19_buf_tag_advance_rollback.
 
-Theorem C19_buf_tag_length_refines : forall b, buf_inv b -> buf_tag_length b = Ok (spec_tag_length (buf_abs b)).
+Theorem C19_buf_tag_length_refines : forall b, buf_inv b -> buf_tag_length b = Ok (bufs_tag_length (buf_abs b)).
 Proof. exact buf_tag_length_refines. Qed.
 Print Assumptions C19_buf_tag_length_refines.
 
 Theorem C19_buf_tag_fetch_bytes_refines : forall b cap, buf_inv b -> 0 <= cap ->
-  exists r, buf_tag_fetch_bytes b cap = Ok r /\ In r (spec_tag_fetch_bytes_alts (buf_abs b) cap).
+  exists r, buf_tag_fetch_bytes b cap = Ok r /\ In r (bufs_tag_fetch_bytes_alts (buf_abs b) cap).
 Proof. exact buf_tag_fetch_bytes_refines. Qed.
 Print Assumptions C19_buf_tag_fetch_bytes_refines.
 
 Theorem C19_buf_reclaim_refines : forall b, buf_inv b ->
-  exists b', buf_reclaim b = Ok b' /\ buf_inv b' /\ buf_abs b' = spec_trim (buf_abs b) /\
-             b_alloc b' = b_alloc b /\ b_dlen b' <= b_dlen b /\
-             b_hasdata b' = b_hasdata b /\ b_hasabuf b' = b_hasabuf b /\
-             (buf_bytes_ok (b_mem b) -> buf_bytes_ok (b_mem b')).
+  exists b', buf_reclaim b = Ok b' /\ buf_inv b' /\ buf_abs b' = bufs_trim (buf_abs b) /\
+             cb_alloc b' = cb_alloc b /\ cb_dlen b' <= cb_dlen b /\
+             cb_hasdata b' = cb_hasdata b /\ cb_hasabuf b' = cb_hasabuf b /\
+             (buf_bytes_ok (cb_mem b) -> buf_bytes_ok (cb_mem b')).
 Proof. exact buf_reclaim_refines. Qed.
 Print Assumptions C19_buf_reclaim_refines.
 
-Theorem C19_buf_rollback_after_reclaim : forall s t, s_tag s = Some t -> 0 <= t ->
-  s_post (snd (spec_tag_rollback (spec_trim s))) = s_post (snd (spec_tag_rollback s)) /\
-  spec_tagged (spec_trim s) = spec_tagged s /\ s_post (spec_trim s) = s_post s.
-Proof. exact spec_rollback_after_trim. Qed.
+Theorem C19_buf_rollback_after_reclaim : forall s t, bs_tag s = Some t -> 0 <= t ->
+  bs_post (snd (bufs_tag_rollback (bufs_trim s))) = bs_post (snd (bufs_tag_rollback s)) /\
+  bufs_tagged (bufs_trim s) = bufs_tagged s /\ bs_post (bufs_trim s) = bs_post s.
+Proof. exact bufs_rollback_after_trim. Qed.
 Print Assumptions C19_buf_rollback_after_reclaim.
 
 (* positions and lengths *)
 Theorem C19_buf_set_position_refines : forall b idx, buf_inv b -> 0 <= idx ->
-  spec_set_position_contract (buf_abs b) idx = true ->
+  bufs_set_position_contract (buf_abs b) idx = true ->
   exists st b', buf_set_position b idx = Ok (st, b') /\ buf_inv b' /\
-                (st, buf_abs b') = spec_set_position (buf_abs b) idx.
+                (st, buf_abs b') = bufs_set_position (buf_abs b) idx.
 Proof. exact buf_set_position_refines. Qed.
 Print Assumptions C19_buf_set_position_refines.
 
-Theorem C19_buf_set_position_below_tag : forall b idx, buf_inv b -> b_hasdata b = true ->
-  b_tag b <> BUF_SIZE_MAX -> 0 <= idx < b_tag b ->
+Theorem C19_buf_set_position_below_tag : forall b idx, buf_inv b -> cb_hasdata b = true ->
+  cb_tag b <> BUF_SIZE_MAX -> 0 <= idx < cb_tag b ->
   exists b', buf_set_position b idx = Ok (ARES_SUCCESS, b') /\
-    b_off b' = idx /\ b_tag b' = b_tag b /\ ~ buf_inv b' /\
-    buf_tag_length b' = Ok (2 ^ 64 - (b_tag b - idx)) /\
+    cb_off b' = idx /\ cb_tag b' = cb_tag b /\ ~ buf_inv b' /\
+    buf_tag_length b' = Ok (2 ^ 64 - (cb_tag b - idx)) /\
     (forall cap, buf_tag_fetch_bytes b' cap =
-                 if cap <? 2 ^ 64 - (b_tag b - idx) then Ok (ARES_EFORMERR, []) else UB OutOfBounds).
+                 if cap <? 2 ^ 64 - (cb_tag b - idx) then Ok (ARES_EFORMERR, []) else UB OutOfBounds).
 Proof. exact buf_set_position_below_tag. Qed.
 Print Assumptions C19_buf_set_position_below_tag.
 
 Theorem C19_buf_set_length_refines : forall b len fill, buf_inv b -> 0 <= len ->
   exists st b', buf_set_length_fill b len fill = Ok (st, b') /\ buf_inv b' /\
-    In (st, buf_abs b') (spec_set_length_alts (buf_abs b) len fill) /\
-    (0 <= fill < 256 -> buf_bytes_ok (b_mem b) -> buf_bytes_ok (b_mem b')) /\
-    (st = ARES_SUCCESS <-> (s_const (buf_abs b) = false /\ len < b_alloc b - b_off b)).
+    In (st, buf_abs b') (bufs_set_length_alts (buf_abs b) len fill) /\
+    (0 <= fill < 256 -> buf_bytes_ok (cb_mem b) -> buf_bytes_ok (cb_mem b')) /\
+    (st = ARES_SUCCESS <-> (bs_const (buf_abs b) = false /\ len < cb_alloc b - cb_off b)).
 Proof. exact buf_set_length_fill_refines. Qed.
 Print Assumptions C19_buf_set_length_refines.
 
 (* finish *)
-Theorem C19_buf_finish_bin_exact : forall junk ok b, buf_inv b -> s_const (buf_abs b) = false ->
+Theorem C19_buf_finish_bin_exact : forall junk ok b, buf_inv b -> bs_const (buf_abs b) = false ->
   exists r b', buf_finish_bin junk ok b = Ok (r, b') /\
     match r with
-    | Some bytes => bytes = spec_tagged (buf_abs b) ++ buf_remaining b
+    | Some bytes => bytes = bufs_tagged (buf_abs b) ++ buf_remaining b
     | None => buf_remaining b = [] /\ ok = false \/ buf_remaining b = []
     end.
 Proof. exact buf_finish_bin_exact. Qed.
@@ -732,39 +732,40 @@ Print Assumptions C19_buf_finish_bin_exact.
 Theorem C19_buf_split_refines : forall ok_arr b delims flags max_sections,
   buf_inv b -> 0 <= flags -> 0 <= max_sections ->
   exists st b' pieces, buf_split ok_arr (fun _ => true) b delims flags max_sections = Ok (st, b', pieces) /\
-    buf_inv b' /\ b_mem b' = b_mem b /\
-    In (mkObs st [buf_zlen pieces] pieces, buf_abs b') (spec_split_alts ok_arr (buf_abs b) delims flags max_sections).
+    buf_inv b' /\ cb_mem b' = cb_mem b /\
+    In (mkBufObs st [buf_zlen pieces] pieces, buf_abs b') (bufs_split_alts ok_arr (buf_abs b) delims flags max_sections).
 Proof. exact buf_split_refines. Qed.
 Print Assumptions C19_buf_split_refines.
 
 Theorem C19_buf_split_fields : forall delims flags,
   buf_flag flags ARES_BUF_SPLIT_KEEP_DELIMS = false -> forall l,
-  fst (spec_split delims flags 0 l) =
-  fold_left (fun a f => spec_split_emit flags a (rev f)) (buf_fields (buf_in_charset delims) l) [].
-Proof. exact spec_split_fields. Qed.
+  fst (bufs_split delims flags 0 l) =
+  fold_left (fun a f => bufs_split_emit flags a (rev f)) (buf_fields (buf_in_charset delims) l) [].
+Proof. exact bufs_split_fields. Qed.
 Print Assumptions C19_buf_split_fields.
 
 Theorem C19_buf_split_noflags : forall delims l,
-  fst (spec_split delims ARES_BUF_SPLIT_NONE 0 l) = filter buf_nonempty (buf_fields (buf_in_charset delims) l).
-Proof. exact spec_split_noflags. Qed.
+  fst (bufs_split delims ARES_BUF_SPLIT_NONE 0 l) = filter buf_nonempty (buf_fields (buf_in_charset delims) l).
+Proof. exact bufs_split_noflags. Qed.
 Print Assumptions C19_buf_split_noflags.
 
 Theorem C19_buf_split_partition : forall delims l,
   exists ds, Forall (fun d => buf_in_charset delims d = true) ds /\
-             length (fst (spec_split delims ARES_BUF_SPLIT_ALLOW_BLANK 0 l)) = S (length ds) /\
-             buf_interleave (fst (spec_split delims ARES_BUF_SPLIT_ALLOW_BLANK 0 l)) ds = l /\
-             Forall (Forall (fun c => buf_in_charset delims c = false)) (fst (spec_split delims ARES_BUF_SPLIT_ALLOW_BLANK 0 l)).
-Proof. exact spec_split_partition. Qed.
+             length (fst (bufs_split delims ARES_BUF_SPLIT_ALLOW_BLANK 0 l)) = S (length ds) /\
+             buf_interleave (fst (bufs_split delims ARES_BUF_SPLIT_ALLOW_BLANK 0 l)) ds = l /\
+             Forall (Forall (fun c => buf_in_charset delims c = false)) (fst (bufs_split delims ARES_BUF_SPLIT_ALLOW_BLANK 0 l)).
+Proof. exact bufs_split_partition. Qed.
 Print Assumptions C19_buf_split_partition.
 
 Theorem C19_buf_split_trim : forall delims l,
-  fst (spec_split delims ARES_BUF_SPLIT_TRIM 0 l) =
+  fst (bufs_split delims ARES_BUF_SPLIT_TRIM 0 l) =
   filter buf_nonempty (map buf_trim (buf_fields (buf_in_charset delims) l)).
-Proof. exact spec_split_trim. Qed.
+Proof. exact bufs_split_trim. Qed.
 Print Assumptions C19_buf_split_trim.
 
 Theorem C19_buf_split_no_duplicates : forall delims flags max_sections l,
   buf_flag flags ARES_BUF_SPLIT_NO_DUPLICATES = true ->
-  buf_nodup_by (buf_piece_eqb flags) (fst (spec_split delims flags max_sections l)).
-Proof. exact spec_split_no_duplicates. Qed.
+  buf_nodup_by (buf_piece_eqb flags) (fst (bufs_split delims flags max_sections l)).
+Proof. exact bufs_split_no_duplicates. Qed.
 Print Assumptions C19_buf_split_no_duplicates.
+Local Close Scope Z_scope.
